@@ -287,6 +287,22 @@ pub fn gen(out: &mut dyn Write, family: &str, thorough: bool, seed: u64) {
         }
         s
     };
+    // windows of 127 and more on SHORT sentences, in every family (u8 arithmetic on the window size: `window * 2`, `window + n`
+    // wrap or trap from 128 on; the features of a short sentence are the same for every window that covers it)
+    for (k, (cw, cn, tw, tn)) in [(128u8, 1u8, 2u8, 1u8), (2, 2, 128, 1), (129, 3, 255, 2), (127, 2, 200, 3), (255, 3, 129, 1)].into_iter().enumerate() {
+        if !thorough && k % 2 == 1 && family != "C10" {
+            continue;
+        }
+        let c = TrCase {
+            cw, cn, tw, tn, ml: 2, solver: [1u8, 5, 6][k % 3],
+            dict: if k % 2 == 0 { vec!["ab".into()] } else { vec![] },
+            tagdict: vec![],
+            corpus: (0..4).map(|_| ('t', tok_line(&mut r, 14, &['a', 'b', 'あ', '1']))).collect(),
+            eval: (0..2).map(|_| tok_line(&mut r, 12, &['a', 'b', 'あ', '1']).replace(' ', "")).collect(),
+            trace: None,
+        };
+        writeln!(out, "{}", c.to_line(oracle)).unwrap();
+    }
     match family {
         "C09" => {
             // windows beyond 127 with sentences longer than the window: relative positions need more than 8 bits
